@@ -166,6 +166,7 @@ def run(a, res):
             except OSError:
                 pass
             time.sleep(2.5)
+            req.recv_size, req.recv_pause = 16384, 0.004   # keep draining slowly (about 4 MB/s) until the end of the upload
             res.count("bigslow_uploads")
         exp = httpref.get(req.headers, "Expect")
         if c and exp and exp.lower() == "100-continue" and c["origin_sends_100"]:
